@@ -101,7 +101,7 @@ CHECKS["C13"] = {
     "engine": "E1 lattice explorer",
     "jobs": lambda tier: per_dim("C13.cpp", "C13", tier, quick=(1, 2, 3, 4, 5), thorough=tuple(range(1, 11))),
     "rule": "unit = (order, N, duration word, scale); every unit builds the D-dimensional spline (generic data with a different vector per coordinate, and data confined to one coordinate) and the D one-dimensional splines of its coordinates and compares coefficients, evaluations, propagated point/boundary gradients and energy gradients coordinate by coordinate, energy / duration gradients as sums over coordinates, and repeats under every cyclic shift and one transposition of the coordinates; non-trivial = D >= 2",
-    "bounds": {"quick": "3 orders x D 1..5 x (N 1..5 all 3^N words, N 6 all 2^N)", "thorough": "3 orders x D 1..10 x (N 1..7 all 3^N words, N 8..10 all 2^N) x 3 scales"},
+    "bounds": {"quick": "3 orders x D 1..5 x (N 1..5 all 3^N words, N 6 all 2^N)", "thorough": "3 orders x D 1..10 x (N 1..8 all 3^N words, N 9,10 all 2^N) x 3 scales"},
     "thresholds": {"coefficients (C02 metric)": [3e-9, 1e-8, 1e-6], "gradients": "1e3 x that (same algorithm on both sides; measured bit-identical)", "sums (relative to the energy itself)": 1e-9},
     "assumptions": ASSUME_COMMON,
     "technique": TECH_E1 + "; differential oracle = the same class instantiated for DIM=1 per coordinate, and coordinate permutations",
@@ -112,7 +112,7 @@ CHECKS["C14"] = {
     "engine": "E1 lattice explorer",
     "jobs": lambda tier: per_dim("C14.cpp", "C14", tier, quick=(1, 2, 3, 4), thorough=(1, 2, 3, 4, 5, 10)),
     "rule": "unit = (order, N, duration word, scale); every unit applies, to the full data basis + generic dyadic data: two start-time shifts (coefficients/energy/gradients bitwise unchanged, knots shifted), a dyadic translation (row c0 translated, rest unchanged), data x 2^k (exact), durations x 2^k with boundary derivatives rescaled (exact, incl. gradient scaling laws), and time reversal (curve on a probe grid for all derivative orders, energy, mirrored gradients); non-trivial = N >= 2 or non-palindromic durations",
-    "bounds": {"quick": "3 orders x D 1..4 x (N 1..4 all 3^N words, N 5,6 all 2^N)", "thorough": "3 orders x D {1,2,3,4,5,10} x (N 1..7 all 3^N words, N 8..10 all 2^N) x 3 scales"},
+    "bounds": {"quick": "3 orders x D 1..4 x (N 1..4 all 3^N words, N 5,6 all 2^N)", "thorough": "3 orders x D {1,2,3,4,5,10} x (N 1..8 all 3^N words, N 9,10 all 2^N) x 3 scales"},
     "thresholds": {"power-of-two relations and start shift": "bitwise", "translation / reversal (C02 metric)": [3e-9, 1e-8, 1e-6]},
     "assumptions": ASSUME_COMMON,
     "technique": TECH_E1 + "; metamorphic oracles (no reference model): exact power-of-two scaling laws, shift invariance, time-reversal symmetry",
@@ -123,7 +123,7 @@ CHECKS["C03"] = {
     "engine": "E1 lattice explorer + E2 history exploration of the hint protocol",
     "jobs": lambda tier: [job("C03.cpp", "C03")],
     "rule": "unit = configuration (DIM in 1..3, ORDER template in {Dynamic,4,6,8,12}, coefficient count 1..12 where allowed, segments in {1,2,3,31,32,33,40}, breakpoint variant incl. one repeated breakpoint); every unit sweeps t over {every breakpoint, one ulp either side, midpoints, far outside} x k = 0..count+1 and compares the plain route with the exact-polynomial oracle on the piece chosen by the half-open rule, and every other route (hinted from EVERY hint value in {INT_MIN,-5,-1,0..n-1,n,n+7,INT_MAX}, batch, []/at()/iterator + local time, Deriv enum, derivative(j).evaluate(t,k-j) for every j<=k) bitwise with the plain route; hint must equal the piece index afterwards; the only state between hinted calls is the caller's int, so the single-step sweep over all hint values is the complete transition relation (argument S); confirmed directly by all hinted call sequences of length <=3 (n=3) / <=2 quick, <=3 thorough (n=33); non-trivial = coefficient count >= 2",
-    "bounds": {"quick": "1428 configurations; hint histories: 12^3 (n=3), 138^2 (n=33)", "thorough": "1428 configurations; hint histories: 12^3 (n=3), 138^3 (n=33)"},
+    "bounds": {"quick": "1428 configurations; hint histories: 12^3 (n=3), 138^2 (n=33)", "thorough": "1836 configurations (segments also 64 and 100); hint histories: 12^3 (n=3), 138^3 (n=33)"},
     "thresholds": {"plain value vs exact oracle": "8*count ulp of sum|terms| + |p'| 2 ulp(t)", "between routes": "bitwise"},
     "assumptions": ASSUME_COMMON,
     "technique": "bounded exhaustive enumeration of configurations x inputs x hint values (complete transition relation of the hint protocol) + exhaustive hinted-call sequences to depth 3 on the real code; oracle = exact polynomial calculus",
@@ -199,7 +199,7 @@ CHECKS["C07"] = {
     "jobs": lambda tier: opt_jobs("C07", tier),
     "rule": "unit = optimizer configuration (order, DIM, N, 8 flag bits, time map, spatial map, energy weight, integration steps K, running-cost functor from the generating set {p^2,v^2,a^2,j^2,s^2,p.v,g(t_global),segment weight,ALL x t_g^2,ALL x (1+sin t_g/4),zero}, start time, time/waypoint cost form); every unit evaluates at the initial guess and at a perturbed decision vector and compares EVERY gradient component with 4th-order Richardson central differences of the value returned by evaluate itself (two step sizes; their difference is the error bar), and the built-in workspace with an explicit one (bitwise); non-trivial = at least one flag set or N >= 2",
     "bounds": {"quick": "DIM 1..4 x 3 orders: all 256 flag masks x N 1..3 (DIM<=2) + per-axis sweeps (12 map pairs; 11 functors x 2 rho x 4 K; start times x cost forms) for 4 masks x N 1..5",
-               "thorough": "as quick with N up to 6, K up to 64, all 256 masks for every DIM, plus the full product 256 masks x 12 map pairs x 3 functors x 2 rho x 2 K for N 1..3, DIM <= 2"},
+               "thorough": "as quick with N up to 6, K up to 64, all 256 masks x N 1..4 for every DIM, plus the full product 256 masks x 12 map pairs x 3 functors x 2 rho x 2 K for N 1..3, DIM <= 3"},
     "thresholds": {"|analytic - FD| <= max(10 x Richardson error bar, 1e-6 x largest gradient entry)": "observed 1e-9 of the largest entry"},
     "assumptions": ASSUME_OPT,
     "technique": TECH_E1 + "; oracle = Richardson-extrapolated differences of the optimizer's own cost, per decision variable",
